@@ -122,7 +122,8 @@ def cleanup(ctx):
 
 
 # ====================================================================== (2b) IR vs CPython, unit level
-SLOTS = ('Absent', 'Inst', 'ClassLevel', 'Both')
+SLOTS = ('Absent', 'Inst', 'ClassLevel', 'Both', 'OwnDesc')
+WANT_SLOT = {'Absent': 0, 'Inst': 1, 'ClassLevel': 2, 'Both': 3, 'OwnDesc': 6}
 TRACKED = ('__wrapped__', '__signature__')
 EXN_IDS = {AttributeError: 1, Boom: 2, NotImplementedError: 3}
 TRUE_VALUE = object()
@@ -136,40 +137,74 @@ def exn_code(e):
     return 99
 
 
+class PlainDesc(object):
+    """a descriptor that computes a value (stands for as_forged and the like)"""
+
+    def __init__(self, computed):
+        self.computed = computed
+
+    def __get__(self, instance, owner):
+        return self.computed
+
+
 def make_user(cfg, hook):
     """A fresh inspected object in configuration cfg = (slot of __wrapped__, slot of
-    __signature__); every read of a tracked attribute goes through hook(name)."""
+    __signature__); every read of a tracked attribute through getattr goes through
+    hook(name).  -> (object, holder of its class-level attributes, original values).
+    With an OwnDesc slot the inspected object is itself a CLASS (its own __dict__
+    holds a descriptor) and "class level" is its metaclass."""
     vals = {}
+    if 'OwnDesc' in cfg:
+        class M(type):
+            def __getattribute__(cls, name):
+                if name in TRACKED:
+                    hook(name)
+                return type.__getattribute__(cls, name)
+        o = M('KC', (object,), {'other': 7})
+        holder = M
+    else:
+        class K(object):
+            def __getattribute__(self, name):
+                if name in TRACKED:
+                    hook(name)
+                return object.__getattribute__(self, name)
 
-    class K(object):
-        def __getattribute__(self, name):
-            if name in TRACKED:
-                hook(name)
-            return object.__getattribute__(self, name)
-
-        def __call__(self, *args, **kwargs):
-            pass
-    o = K()
+            def __call__(self, *args, **kwargs):
+                pass
+        o = K()
+        holder = K
+        o.__dict__['other'] = 7
     for name, slot in zip(TRACKED, cfg):
-        vi, vc = object(), object()
-        vals[name] = (vi, vc)
-        if slot in ('Inst', 'Both'):
-            o.__dict__[name] = vi
+        vi, vc, vcomp = object(), object(), object()
+        if slot == 'OwnDesc':
+            vi = PlainDesc(vcomp)
+        vals[name] = (vi, vc, vcomp)
+        if slot in ('Inst', 'Both', 'OwnDesc'):
+            if isinstance(o, type):
+                type.__setattr__(o, name, vi)
+            else:
+                o.__dict__[name] = vi
         if slot in ('ClassLevel', 'Both'):
-            setattr(K, name, vc)
-    o.__dict__['other'] = 7
-    return o, K, vals
+            setattr(holder, name, vc)
+    return o, holder, vals
+
+
+def own_dict(o):
+    return type.__getattribute__(o, '__dict__') if isinstance(o, type) else object.__getattribute__(o, '__dict__')
 
 
 def slot_code(o, K, name, vals):
-    vi, vc = vals[name]
-    i = o.__dict__.get(name, None) if name in o.__dict__ else None
-    has_i = name in o.__dict__
+    vi, vc, vcomp = vals[name]
+    d = own_dict(o)
+    has_i = name in d
+    i = d.get(name)
     has_c = name in K.__dict__
     c = K.__dict__.get(name)
     if not has_i and not has_c:
         return 0
     if has_i and not has_c:
+        if isinstance(vi, PlainDesc):
+            return 6 if i is vi else 7 if i is vcomp else 4
         return 1 if i is vi else 4
     if has_c and not has_i:
         return 2 if c is vc else 4
@@ -198,7 +233,21 @@ class Patched(object):
         self.saved = []
 
 
-def unit_aff(cfg, crash, rets):
+_READ_SEQ = {}
+
+
+def read_sequence(cfg):
+    """names of the tracked attributes the real autoforwards_function reads through
+    getattr, in order, for configuration cfg (no crash) -- maps "the getter of
+    attribute a raised inside __enter__" to the model's read index"""
+    if cfg not in _READ_SEQ:
+        log = []
+        unit_aff(cfg, None, [True] * 4, log)
+        _READ_SEQ[cfg] = log
+    return _READ_SEQ[cfg]
+
+
+def unit_aff(cfg, crash, rets, read_log=None):
     """Run the real autoforwards_function with its outside callees replaced by
     oracle-driven stubs.  crash = None | ('call', k, exc) | ('get', k, exc).
     -> (result code, wrapped slot, signature slot, guard size, ncalls, ngets)"""
@@ -207,6 +256,8 @@ def unit_aff(cfg, crash, rets):
     def hook(name):
         k = st['gets']
         st['gets'] += 1
+        if read_log is not None:
+            read_log.append(name)
         if crash and crash[0] == 'get' and crash[1] == k:
             raise crash[2]('injected getter crash')
 
@@ -218,6 +269,7 @@ def unit_aff(cfg, crash, rets):
         return TRUE_VALUE if (rets[k] if k < len(rets) else True) else None
 
     o, K, vals = make_user(cfg, hook)
+    others_before = sorted(k for k in own_dict(o) if k not in TRACKED)
     patches = [(SG, 'signature', stub), (AF, 'any_params_star', stub), (UT, 'get_ast', stub),
                (AF, 'autoforwards_ast', stub)]
     with Patched(patches):
@@ -226,10 +278,10 @@ def unit_aff(cfg, crash, rets):
             rc = (0, 0) if r is None else (1, 0)
         except Exception as e:  # noqa: BLE001
             rc = (2, exn_code(e))
-    extra = sorted(k for k in o.__dict__ if k not in TRACKED)
+    extra = sorted(k for k in own_dict(o) if k not in TRACKED)
     return (rc, slot_code(o, K, '__wrapped__', vals), slot_code(o, K, '__signature__', vals),
             len(specifiers.as_forged.currently_computing), st['calls'], st['gets'],
-            extra == ['other'] and o.__dict__['other'] == 7)
+            extra == others_before and own_dict(o)['other'] == 7)
 
 
 CB_CHOICES = ('CbNone', 'CbSame', 'CbOther', 'CbClass')
@@ -273,7 +325,7 @@ Import ListNotations.
 From Sigtools Require Import Model.IR Proofs.IR.
 From SigtoolsGen Require Import GenRetrieval.
 Local Open Scope N_scope.
-Definition slot_of (n : N) : slotcfg := match n with 0 => Absent | 1 => Inst | 2 => ClassLevel | _ => Both end.
+Definition slot_of (n : N) : slotcfg := match n with 0 => Absent | 1 => Inst | 2 => ClassLevel | 3 => Both | _ => OwnDesc end.
 Definition exn_of (n : N) : N := n.
 Definition crash_of (kind : N) (k : nat) (e : N) : crash :=
   match kind with 0 => NoCrash | 1 => CallCrash k e | _ => GetCrash k e end.
@@ -318,15 +370,13 @@ def _crash_tuple(crash):
 
 
 def ir_correspondence(ctx, rep):
-    """Exhaustive on the theorems' domains: the real functions under stubs vs the
-    IR interpreter on the regenerated term."""
-    if _STATE['translation'] is None:
-        return 0
-    extra_q = [(_STATE['gen_dir'], 'SigtoolsGen')]
+    """Exhaustive on the theorems' domains: the real functions under stubs; the
+    property is decided directly on these runs (always), and they are compared
+    with the IR interpreter on the regenerated term (when there is one)."""
     excs = (AttributeError, Boom)
     aff_cases = []
-    for w in range(4):
-        for s in range(4):
+    for w in range(5):
+        for s in range(5):
             cfg = (SLOTS[w], SLOTS[s])
             crashes = [None] + [('call', k, e) for k in range(4) for e in excs] \
                 + [('get', k, e) for k in range(3) for e in excs]
@@ -342,6 +392,27 @@ def ir_correspondence(ctx, rep):
                 for ret in (True, False):
                     get_cases.append((on_class, cr, cbs, ret,
                                       unit_get(on_class, cr, [CB_CHOICES[c] for c in cbs], ret)))
+    # the property itself, decided directly on the real functions' runs
+    for (w, s), cfg, cr, rets, ans in aff_cases:
+        rc, sw, ss, g, nc, ng, other = ans
+        restored = sw == WANT_SLOT[cfg[0]] and ss == WANT_SLOT[cfg[1]] and other
+        if not restored or g != 0:
+            rep.violation('C16:attrs-changed',
+                          'autoforwards_function(obj): obj with __wrapped__ %s, __signature__ %s; %s; afterwards '
+                          '__wrapped__ is %s, __signature__ is %s' % (
+                              cfg[0], cfg[1], _show_crash(cr) or 'no crash', _slot_name(sw), _slot_name(ss)),
+                          {'kind': 'unit-aff', 'cfg': list(cfg), 'crash': _crash_json(cr), 'rets': rets})
+    for on_class, cr, cbs, ret, ans in get_cases:
+        if ans[1] != 0:
+            rep.violation('C16:guard', '_AsForged.__get__ read through %s: guard set not empty afterwards (%s, callbacks %s)' % (
+                'the class (instance is None)' if on_class else 'an instance', _show_crash(cr) or 'no crash',
+                [CB_CHOICES[x] for x in cbs]),
+                {'kind': 'unit-get', 'on_class': on_class, 'crash': _crash_json(cr), 'cbs': list(cbs), 'ret': ret})
+    rep.coverage['ir_vs_cpython_cases'] = {'autoforwards_function': len(aff_cases), '_AsForged.__get__': len(get_cases),
+                                           'compared_with_model': _STATE['translation'] is not None}
+    if _STATE['translation'] is None:
+        return len(aff_cases) + len(get_cases)
+    extra_q = [(_STATE['gen_dir'], 'SigtoolsGen')]
 
     def aff_term(chunk):
         items = []
@@ -390,24 +461,7 @@ def ir_correspondence(ctx, rep):
                        'callbacks': [CB_CHOICES[x] for x in c[2]], 'ret': c[3]}
                 rep.corr_break('IR interpreter on the regenerated term vs CPython (stubbed callees)', inp,
                                '(see replay: differs)', str(c[4]))
-    # the property itself, decided directly on the real functions' runs
-    for (w, s), cfg, cr, rets, ans in aff_cases:
-        rc, sw, ss, g, nc, ng, other = ans
-        restored = (sw == {'Absent': 0, 'Inst': 1, 'ClassLevel': 2, 'Both': 3}[cfg[0]]
-                    and ss == {'Absent': 0, 'Inst': 1, 'ClassLevel': 2, 'Both': 3}[cfg[1]] and other)
-        if not restored or g != 0:
-            key = 'C16:attrs-changed'
-            rep.violation(key, 'autoforwards_function(obj): obj with __wrapped__ %s, __signature__ %s; %s; afterwards '
-                          '__wrapped__ is %s, __signature__ is %s' % (
-                              cfg[0], cfg[1], _show_crash(cr) or 'no crash', _slot_name(sw), _slot_name(ss)),
-                          {'kind': 'unit-aff', 'cfg': list(cfg), 'crash': _crash_json(cr), 'rets': rets})
-    for on_class, cr, cbs, ret, ans in get_cases:
-        if ans[1] != 0:
-            rep.violation('C16:guard', '_AsForged.__get__: guard set not empty afterwards (%s, callbacks %s)' % (
-                _show_crash(cr), [CB_CHOICES[x] for x in cbs]),
-                {'kind': 'unit-get', 'on_class': on_class, 'crash': _crash_json(cr), 'cbs': list(cbs), 'ret': ret})
-    rep.coverage['ir_vs_cpython_cases'] = {'autoforwards_function': len(aff_cases), '_AsForged.__get__': len(get_cases),
-                                           'disagreements': nbad}
+    rep.coverage['ir_vs_cpython_cases']['disagreements'] = nbad
     # what the model says about the getter crash points (empty since sigtools e783c8b)
     cex = coqrun.coq_eval(COQ_PREAMBLE, ['aff_getter_counterexamples FUEL prog'], extra_q=extra_q)[0]
     rep.coverage['model_getter_counterexamples (wrapped slot, signature slot, getter index, exception class)'] = cex
@@ -418,7 +472,9 @@ def ir_correspondence(ctx, rep):
 
 def _slot_name(code):
     return {0: 'absent', 1: 'the instance attribute', 2: 'class-level only', 3: 'instance + class-level',
-            4: 'a different value', 5: 'the class-level value copied into the instance __dict__'}.get(code, str(code))
+            4: 'a different value', 5: 'the class-level value copied into the instance __dict__',
+            6: 'the descriptor itself (own __dict__)',
+            7: 'the value the descriptor computed, stored in place of the descriptor'}.get(code, str(code))
 
 
 def _show_crash(cr):
@@ -749,7 +805,75 @@ def sc_decorated_wrapper(inj):
     return outer, ('sigtools',)
 
 
-SCENARIOS = [sc_wraps, sc_wraps_extra, sc_wraps_and_signature, sc_wraps_chain, sc_instance_sig, sc_class_sig,
+def sc_class_desc_noforger(inj):
+    """a class whose own __dict__ holds the as_forged DESCRIPTOR, no forger"""
+    class C(object):
+        __signature__ = specifiers.as_forged
+
+        def __init__(self, a, b=1):
+            pass
+    return C, ('sigtools', 'inspect')
+
+
+def sc_class_desc_forger(inj):
+    """the same with a forger on the class"""
+    @specifiers.forwards_to_function(_inner)
+    class C(object):
+        __signature__ = specifiers.as_forged
+
+        def __init__(self, p, *args, **kwargs):
+            _inner(*args, **kwargs)
+    return C, ('sigtools', 'inspect')
+
+
+def sc_class_desc_forwarding_init(inj):
+    class C(object):
+        __signature__ = specifiers.as_forged
+
+        def __init__(self, p, *args, **kwargs):
+            _inner(*args, **kwargs)
+    return C, ('sigtools', 'inspect')
+
+
+def sc_function_forwarding_to_class(inj):
+    """a function forwarding *args/**kwargs to a class read through as_forged"""
+    class C(object):
+        __signature__ = specifiers.as_forged
+
+        def __init__(self, a, b=1):
+            pass
+
+    def make(q, *args, **kwargs):
+        return C(*args, **kwargs)
+    return make, ('sigtools',), [C]
+
+
+def sc_function_forwarding_to_forged_class(inj):
+    @specifiers.forwards_to_function(_inner)
+    class C(object):
+        __signature__ = specifiers.as_forged
+
+        def __init__(self, p, *args, **kwargs):
+            _inner(*args, **kwargs)
+
+    def make(q, *args, **kwargs):
+        return C(*args, **kwargs)
+    return make, ('sigtools',), [C]
+
+
+def sc_class_getter_desc(inj):
+    """a class whose own __dict__ holds a boundary-crossing descriptor as __signature__"""
+    class C(object):
+        __signature__ = Getter(inj, '__signature__', _ORIG['signature'](_inner2))
+
+        def __init__(self, a, b=1):
+            pass
+    return C, ('sigtools',)
+
+
+SCENARIOS = [sc_class_desc_noforger, sc_class_desc_forger, sc_class_desc_forwarding_init,
+             sc_function_forwarding_to_class, sc_function_forwarding_to_forged_class, sc_class_getter_desc,
+             sc_wraps, sc_wraps_extra, sc_wraps_and_signature, sc_wraps_chain, sc_instance_sig, sc_class_sig,
              sc_class_sig_inst_wrapped, sc_getter_sig, sc_getter_sig_missing, sc_getter_wrapped, sc_getattr_hook, sc_getattr_hook_missing, sc_getter_both,
              sc_forwards_to_function, sc_forwards_emulate, sc_user_forger, sc_user_forger_emulate, sc_kwoargs,
              sc_kwoargs_method, sc_as_forged_class, sc_bound_method, sc_partial_wraps, sc_callable_instance,
@@ -781,7 +905,8 @@ def snapshot(root):
     in its __dict__, the identity of each value and, for atoms, the value."""
     seen = {}
     order = []
-    todo = [('root', root)]
+    roots = root if isinstance(root, list) else [root]
+    todo = [('root' if i == 0 else 'extra%d' % i, r) for i, r in enumerate(roots)][::-1]
     while todo:
         path, o = todo.pop()
         if id(o) in seen or len(seen) > 200:
@@ -845,8 +970,9 @@ def compare(before):
 def run_e2e(name, entry, k, excname):
     """One fault-injection run -> dict(result, diffs, guard, crossings, fired, in_enter)"""
     inj = Injector()
-    obj, entries = SCENARIO_BY_NAME[name](inj)
-    snap = snapshot(obj)
+    made = SCENARIO_BY_NAME[name](inj)
+    obj = made[0]
+    snap = snapshot([obj] + (list(made[2]) if len(made) > 2 else []))
     specifiers.as_forged.currently_computing.clear()
     inj.k = k
     inj.exc = EXC[excname] if excname else None
@@ -873,6 +999,8 @@ def run_e2e(name, entry, k, excname):
                 def slot(nm):
                     i = nm in e['attrs']
                     c = any(nm in vars(k) for k in type(inj.enter_obj).__mro__)
+                    if i and isinstance(inj.enter_obj, type) and hasattr(type(own_dict(inj.enter_obj).get(nm)), '__get__'):
+                        return 4
                     return 3 if i and c else 1 if i else 2 if c else 0
                 enter_cfg = (slot('__wrapped__'), slot('__signature__'), e['path'])
     return {'result': res, 'diffs': diffs, 'guard': guard, 'crossings': inj.n, 'log': inj.log,
@@ -903,7 +1031,7 @@ def fault_injection(ctx, rep, model_cex=None):
     outcomes = {}
     for sc in SCENARIOS:
         name = sc.__name__
-        _, entries = sc(Injector())
+        entries = sc(Injector())[1]
         for entry in entries:
             base = run_e2e(name, entry, None, None)
             n += 1
@@ -933,7 +1061,10 @@ def fault_injection(ctx, rep, model_cex=None):
                         # a getter crash inside __enter__: the IR interpreter's prediction for the
                         # same configuration and crash point (attribute index, exception class)
                         w, sg, path = r['enter_cfg']
-                        gi = TRACKED.index(r['enter_attr'])
+                        seq = read_sequence((SLOTS[w], SLOTS[sg]))
+                        if r['enter_attr'] not in seq:
+                            continue
+                        gi = seq.index(r['enter_attr'])
                         predicted_lost = (w, sg, gi, 1 if ex == 'AttributeError' else 2) in model_cex
                         really_lost = any(d[1] == path for d in r['diffs'])
                         n_pred += 1
@@ -1048,52 +1179,81 @@ def _deep_diff(s, snap):
 
 
 def _alias(r, inputs):
+    """identity of the provenance map, of every per-parameter list and of the
+    nested '+depths' map between the result and every input (empty ones included)"""
     if not hasattr(r, 'sources'):
         return None
     for s in inputs:
         if r.sources is s.sources:
             return 'result shares its sources map with an input'
+        ins = {id(v): k for k, v in s.sources.items()}
         for k, v in r.sources.items():
-            if k in s.sources and v is s.sources[k] and v not in ({}, []):
-                return 'result shares the %r entry of its sources with an input' % (k,)
+            if id(v) in ins:
+                return 'result.sources[%r] is input.sources[%r] (the same %s object)' % (k, ins[id(v)], type(v).__name__)
     return None
 
 
+def _strict_aliasing(result, built):
+    """replacement for algebra._aliasing during this check (algebra.py skips empty
+    containers, hence an empty '+depths' map)"""
+    return _alias(result, [rec[1] for rec in built])
+
+
+def direct_verdicts(d):
+    """sort_params / apply_params / unary merge, embed / mask on one fresh signature,
+    decided directly: -> [(key, what)]"""
+    out = []
+    s = build_sig(d)
+    snap = _deep(s)
+    sp = PS.sort_params(s, sources=True)
+    PS.sort_params(s)
+    bad = _deep_diff(s, snap)
+    if bad:
+        out.append(('C16:input-mutated', 'sort_params(%s): %s' % (show_sig(d), bad)))
+    ins = {id(v): k for k, v in s.sources.items()}
+    if sp.sources is s.sources or any(id(v) in ins for v in sp.sources.values()):
+        out.append(('C16:aliased:sort_params',
+                    'sort_params(s, sources=True).sources shares its map, a per-parameter list or the nested '
+                    "'+depths' map with s.sources, s=%s" % show_sig(d)))
+    # buckets are fresh containers holding the input's own parameter objects
+    for bucket in (sp.posargs, sp.pokargs):
+        bucket.append(None)        # must not reach the input
+    sp.kwoargs['zz'] = None
+    if _deep_diff(s, snap):
+        out.append(('C16:aliased:sort_params', 'mutating a bucket returned by sort_params(%s) changed the input' % show_sig(d)))
+    n = len(d['params'])
+    ops = [('apply_params(s, *sort_params(s, sources=True))', lambda: PS.apply_params(s, *PS.sort_params(s, sources=True))),
+           ('apply_params(s, *sort_params(s))', lambda: PS.apply_params(s, *PS.sort_params(s))),
+           ('merge(s)', lambda: PS.merge(s)), ('embed(s)', lambda: PS.embed(s)),
+           ('mask(s, 0)', lambda: PS.mask(s, 0)), ('mask(s, 1)', lambda: PS.mask(s, min(1, n))),
+           ('mask(s, hide_kwargs=True)', lambda: PS.mask(s, hide_kwargs=True)),
+           ('forwards(s, s)', lambda: PS.forwards(s, s))]
+    for label, op in ops:
+        try:
+            r = op()
+        except ValueError:
+            r = None
+        bad = _deep_diff(s, snap)
+        if bad:
+            out.append(('C16:input-mutated', '%s s=%s: %s' % (label, show_sig(d), bad)))
+        al = _alias(r, [s]) if r is not None else None
+        if al:
+            out.append(('C16:aliased:' + label.split('(')[0], '%s s=%s: %s' % (label, show_sig(d), al)))
+    return out
+
+
 def sort_apply_direct(ctx, rep):
-    """sort_params (with and without sources) and apply_params, decided directly."""
     rng = ctx.rng('sortapply')
     U3 = universe(3, ['a', 'b', 'c'])
     n = 0
     for _ in range(400 if ctx.quick else 4000):
-        d = mk_desc(rng.choice(U3) if rng.random() < 0.6 else random_sig(rng, 'abcd', 4, meta=True), 100)
-        s = build_sig(d)
-        snap = _deep(s)
-        n += 1
-        sp = PS.sort_params(s, sources=True)
-        plain = PS.sort_params(s)
-        bad = _deep_diff(s, snap)
-        if bad:
-            rep.violation('C16:input-mutated', 'sort_params(%s): %s' % (show_sig(d), bad), {'kind': 'sort', 'sig': d})
-        if sp.sources is s.sources or any(v is s.sources.get(k) for k, v in sp.sources.items()):
-            rep.violation('C16:aliased:sort_params', 'sort_params(%s, sources=True).sources shares a map or list with the input' % show_sig(d),
-                          {'kind': 'sort', 'sig': d})
-        # buckets are fresh containers holding the input's own parameter objects
-        for bucket in (sp.posargs, sp.pokargs):
-            bucket.append(None)        # must not reach the input
-        sp.kwoargs['zz'] = None
-        if _deep_diff(s, snap):
-            rep.violation('C16:aliased:sort_params', 'mutating a bucket returned by sort_params(%s) changed the input' % show_sig(d),
-                          {'kind': 'sort', 'sig': d})
-        sp2 = PS.sort_params(s, sources=True)
-        r = PS.apply_params(s, *sp2)
-        bad = _deep_diff(s, snap)
-        if bad:
-            rep.violation('C16:input-mutated', 'apply_params(s, *sort_params(s, sources=True)) s=%s: %s' % (show_sig(d), bad),
-                          {'kind': 'sort', 'sig': d})
-        al = _alias(r, [s])
-        if al:
-            rep.violation('C16:aliased:apply_params', 'apply_params(s, *sort_params(s, sources=True)) s=%s: %s' % (show_sig(d), al),
-                          {'kind': 'sort', 'sig': d})
+        k = rng.random()
+        ps = rng.choice(U3) if k < 0.6 else random_sig(rng, 'abcd', 4, meta=True)
+        # with and without provenance (an empty '+depths' map must not be shared either)
+        d = mk_desc(ps, 100 if rng.random() < 0.8 else None)
+        n += 9
+        for key, what in direct_verdicts(d):
+            rep.violation(key, what, {'kind': 'sort', 'sig': d})
     return n
 
 
@@ -1103,7 +1263,12 @@ def run(ctx, rep):
                 'whose crossing was actually reached (= distinct non-trivial); IR: the theorems\' whole domain on the real functions')
     # (1)
     cases = gen_algebra(ctx)
-    tr = run_cases(cases)
+    loose = algebra._aliasing
+    algebra._aliasing = _strict_aliasing     # identity of nested maps and empty containers included
+    try:
+        tr = run_cases(cases)
+    finally:
+        algebra._aliasing = loose
     hist = {}
     for c, m, i in tr:
         hist[c.op] = hist.get(c.op, 0) + 1
@@ -1147,7 +1312,7 @@ def replay(ctx, data):
     if kind == 'unit-aff':
         cfg = tuple(r['cfg'])
         ans = unit_aff(cfg, _crash_unjson(r['crash']), r['rets'])
-        want = {'Absent': 0, 'Inst': 1, 'ClassLevel': 2, 'Both': 3}
+        want = WANT_SLOT
         if ans[1] != want[cfg[0]] or ans[2] != want[cfg[1]] or not ans[6] or ans[3] != 0:
             return ('autoforwards_function(obj) with __wrapped__ %s, __signature__ %s, %s: afterwards __wrapped__ is %s, '
                     '__signature__ is %s' % (cfg[0], cfg[1], _show_crash(_crash_unjson(r['crash'])) or 'no crash',
@@ -1160,7 +1325,12 @@ def replay(ctx, data):
         del algebra.PURITY_BREAKS[:]
         del algebra.ALIAS_BREAKS[:]
         c = case_from_data(r)
-        c.impl()
+        loose = algebra._aliasing
+        algebra._aliasing = _strict_aliasing
+        try:
+            c.impl()
+        finally:
+            algebra._aliasing = loose
         out = [pb['what'] for pb in algebra.PURITY_BREAKS + algebra.ALIAS_BREAKS]
         del algebra.PURITY_BREAKS[:]
         del algebra.ALIAS_BREAKS[:]
@@ -1185,24 +1355,8 @@ class Collector(object):
 
 
 def _replay_sort(d, rp):
-    class R(object):
-        def choice(self, l):
-            return d['params']
-
-        def random(self):
-            return 0.0
-    s = build_sig(d)
-    snap = _deep(s)
-    sp = PS.sort_params(s, sources=True)
-    if _deep_diff(s, snap):
-        rp.violation('', 'sort_params(%s): %s' % (show_sig(d), _deep_diff(s, snap)), None)
-    if sp.sources is s.sources or any(v is s.sources.get(k) for k, v in sp.sources.items()):
-        rp.violation('', 'sort_params(%s, sources=True).sources shares a map or list with the input' % show_sig(d), None)
-    r = PS.apply_params(s, *PS.sort_params(s, sources=True))
-    if _deep_diff(s, snap):
-        rp.violation('', 'apply_params changed its input %s' % show_sig(d), None)
-    if _alias(r, [s]):
-        rp.violation('', 'apply_params(s, *sort_params(s, sources=True)) s=%s: %s' % (show_sig(d), _alias(r, [s])), None)
+    for key, what in direct_verdicts(d):
+        rp.violation(key, what, None)
 
 
 def _replay_shared(d, rp):
